@@ -136,41 +136,54 @@ Definition calc_index (ix : bytes) (key : seg) (len : nat) (st : gstate) : cires
 Definition kext_go (key : seg) (text : bytes) : seg := key ++ c_dot :: text.
 Definition kext_bare (key : seg) (text : bytes) : seg := text.
 
+(* what one segment does: either the walk ends with a result, or it descends into a map *)
+Inductive sres := SDone (r : gres) | SInto (m : list (bytes * val)).
+
+(* a value that is not a map[string]any ends the walk: returned if this was the last segment,
+   otherwise the error "not last segment" *)
+Definition settle (e : val) (last : bool) : sres :=
+  match e with
+  | VMap m => SInto m
+  | _ => if last then SDone (GvOk e) else SDone GvErr
+  end.
+
+Definition seg_step (cur : list (bytes * val)) (sg : pseg) (key' : seg) (last : bool) (st : gstate)
+  : sres * gstate * list seg :=
+  match vassoc cur (ps_name sg) with
+  | None => (SDone GvErr, st, [])                  (* ErrSegmentNotFound *)
+  | Some pv =>
+      match ps_idx sg with
+      | None => (settle pv last, st, [])
+      | Some ix =>
+          match pv with
+          | VList l =>
+              match calc_index ix key' (length l) st with
+              | (CiIdx i, st1, ks) =>
+                  match nth_error l i with
+                  | Some e => (settle e last, st1, ks)
+                  | None => (SDone GvPanic, st1, ks)
+                  end
+              | (CiErr, st1, ks) => (SDone GvErr, st1, ks)
+              | (CiPanic, st1, ks) => (SDone GvPanic, st1, ks)
+              | (CiNoDraw, st1, ks) => (SDone GvNoDraw, st1, ks)
+              end
+          | _ => (SDone GvErr, st, [])             (* "invalid type of value" *)
+          end
+      end
+  end.
+
+Definition is_nil {A} (l : list A) : bool := match l with [] => true | _ => false end.
+
 Fixpoint gmv_go (kext : seg -> bytes -> seg) (cur : list (bytes * val)) (segs : list pseg) (key : seg)
          (st : gstate) : gres * gstate * list seg :=
   match segs with
   | [] => (GvOk (VMap cur), st, [])
   | sg :: rest =>
       let key' := kext key (ps_text sg) in
-      let continue (e : val) (st1 : gstate) (ks : list seg) :=
-        match e with
-        | VMap m => let '(r, st2, ks2) := gmv_go kext m rest key' st1 in (r, st2, ks ++ ks2)
-        | _ => match rest with
-               | [] => (GvOk e, st1, ks)
-               | _ => (GvErr, st1, ks)          (* "not last segment" *)
-               end
-        end in
-      match vassoc cur (ps_name sg) with
-      | None => (GvErr, st, [])                  (* ErrSegmentNotFound *)
-      | Some pv =>
-          match ps_idx sg with
-          | None => continue pv st []
-          | Some ix =>
-              match pv with
-              | VList l =>
-                  match calc_index ix key' (length l) st with
-                  | (CiIdx i, st1, ks) =>
-                      match nth_error l i with
-                      | Some e => continue e st1 ks
-                      | None => (GvPanic, st1, ks)
-                      end
-                  | (CiErr, st1, ks) => (GvErr, st1, ks)
-                  | (CiPanic, st1, ks) => (GvPanic, st1, ks)
-                  | (CiNoDraw, st1, ks) => (GvNoDraw, st1, ks)
-                  end
-              | _ => (GvErr, st, [])             (* "invalid type of value" *)
-              end
-          end
+      match seg_step cur sg key' (is_nil rest) st with
+      | (SDone r, st1, ks) => (r, st1, ks)
+      | (SInto m, st1, ks) =>
+          let '(r, st2, ks2) := gmv_go kext m rest key' st1 in (r, st2, ks ++ ks2)
       end
   end.
 
@@ -229,23 +242,25 @@ Fixpoint print_cpath (cp : list cseg) : bytes :=
 Definition name_char (c : N) : bool :=
   (negb (is_space c) && negb (N.eqb c c_dot) && negb (N.eqb c c_lb))%bool.
 
-Definition name_ok (n : bytes) : bool :=
+Definition cname_ok (n : bytes) : bool :=
   match n with
   | [] => false
   | _ => forallb name_char n
   end.
 
+Definition lit_val (ds : bytes) : Z := fold_left (fun a c => (a * 10 + Z.of_N (c - 48))%Z) ds 0%Z.
+
 Definition lit_ok (ds : bytes) : bool :=
   match ds with
   | [] => false
-  | _ => (forallb is_digit ds && Nat.leb (length ds) 18)%bool     (* below 10^18 < 2^63 *)
+  | _ => (forallb is_digit ds && (lit_val ds <=? int64_max)%Z)%bool
   end.
 
 Definition cseg_ok (c : cseg) : bool :=
   match c with
-  | CPlain n => name_ok n
-  | CAt n ds => (name_ok n && lit_ok ds)%bool
-  | CNext n => name_ok n
+  | CPlain n => cname_ok n
+  | CAt n ds => (cname_ok n && lit_ok ds)%bool
+  | CNext n => cname_ok n
   end.
 
 Definition is_cnext (c : cseg) : bool := match c with CNext _ => true | _ => false end.
@@ -283,50 +298,49 @@ Fixpoint loc_eqb (a b : list cseg) : bool :=
   | _, _ => false
   end.
 
-Definition lit_val (ds : bytes) : Z := fold_left (fun a c => (a * 10 + Z.of_N (c - 48))%Z) ds 0%Z.
-
 (* evaluation of a canonical path when [k] earlier evaluations have used its [next] list:
    the list hands out element k mod len.  Second component: was the [next] list reached (one
    counter value consumed)? *)
+Definition sstep (cur : list (bytes * val)) (c : cseg) (k : nat) (last : bool) : sres * bool :=
+  match c with
+  | CPlain n =>
+      match vassoc cur n with
+      | Some e => (settle e last, false)
+      | None => (SDone GvErr, false)
+      end
+  | CAt n ds =>
+      match vassoc cur n with
+      | Some (VList l) =>
+          match l with
+          | [] => (SDone GvErr, false)
+          | _ => match nth_error l (Z.to_nat (lit_val ds mod Z.of_nat (length l))) with
+                 | Some e => (settle e last, false)
+                 | None => (SDone GvPanic, false)
+                 end
+          end
+      | _ => (SDone GvErr, false)
+      end
+  | CNext n =>
+      match vassoc cur n with
+      | Some (VList l) =>
+          match l with
+          | [] => (SDone GvErr, false)
+          | _ => match nth_error l (k mod length l) with
+                 | Some e => (settle e last, true)
+                 | None => (SDone GvPanic, true)
+                 end
+          end
+      | _ => (SDone GvErr, false)
+      end
+  end.
+
 Fixpoint sgmv (cur : list (bytes * val)) (cp : list cseg) (k : nat) : gres * bool :=
   match cp with
   | [] => (GvOk (VMap cur), false)
   | c :: rest =>
-      let continue (e : val) :=
-        match e with
-        | VMap m => sgmv m rest k
-        | _ => (match rest with [] => GvOk e | _ => GvErr end, false)
-        end in
-      match c with
-      | CPlain n =>
-          match vassoc cur n with
-          | Some e => continue e
-          | None => (GvErr, false)
-          end
-      | CAt n ds =>
-          match vassoc cur n with
-          | Some (VList l) =>
-              match l with
-              | [] => (GvErr, false)
-              | _ => match nth_error l (Z.to_nat (lit_val ds mod Z.of_nat (length l))) with
-                     | Some e => continue e
-                     | None => (GvPanic, false)
-                     end
-              end
-          | _ => (GvErr, false)
-          end
-      | CNext n =>
-          match vassoc cur n with
-          | Some (VList l) =>
-              match l with
-              | [] => (GvErr, false)
-              | _ => match nth_error l (k mod length l) with
-                     | Some e => (fst (continue e), true)
-                     | None => (GvPanic, true)
-                     end
-              end
-          | _ => (GvErr, false)
-          end
+      match sstep cur c k (is_nil rest) with
+      | (SDone r, b) => (r, b)
+      | (SInto m, b) => let '(r, b2) := sgmv m rest k in (r, (b || b2)%bool)
       end
   end.
 
@@ -348,17 +362,30 @@ Fixpoint spec_paths (done : list (list (bytes * val) * list cseg)) (h : list (li
   | (t, cp) :: r => fst (sgmv t cp (count_loc (next_loc cp) done)) :: spec_paths ((t, cp) :: done) r
   end.
 
+(* the path strings of a history of canonical paths *)
+Definition to_paths (h : list (list (bytes * val) * list cseg)) : list (list (bytes * val) * bytes) :=
+  map (fun e => (fst e, print_cpath (snd e))) h.
+
+(* the counter key of the [next] list of a canonical path, as the code accumulates it from
+   [key]: a dot and the printed segment for every segment up to and including name[next] *)
+Fixpoint nkey (key : seg) (cp : list cseg) : seg :=
+  match cp with
+  | [] => key
+  | c :: r => let key' := kext_go key (print_cseg c) in
+              if is_cnext c then key' else nkey key' r
+  end.
+
 (* recognising a canonical path in a path string (used by the driver to decide whether the
    specification applies to a generated path): the segments are split at dots, a segment
    name[next] / name[digits] / name is read back *)
 Definition cseg_of_text (t : bytes) : option cseg :=
   match break_at c_lb t with
-  | None => if name_ok t then Some (CPlain t) else None
+  | None => if cname_ok t then Some (CPlain t) else None
   | Some (n, rest) =>
       if ends_with c_rb t then
         let ix := removelast rest in
-        if beq ix s_next then (if name_ok n then Some (CNext n) else None)
-        else if (name_ok n && lit_ok ix)%bool then Some (CAt n ix) else None
+        if beq ix s_next then (if cname_ok n then Some (CNext n) else None)
+        else if (cname_ok n && lit_ok ix)%bool then Some (CAt n ix) else None
       else None
   end.
 
